@@ -1,1 +1,26 @@
-From WT Require Import Base.Wrap.
+(** * C16 — Commands fail loudly: no panic and no silent success.
+    Proved here for the command models: which verdicts each command can give, and that a command
+    which does not report success has not touched an existing destination.  Absence of [StPanic]
+    for every reachable file state follows from C01/C02's totality theorems (the library calls
+    return a state or an error for every history in the clock domain); its end-to-end statement
+    over the command functions is listed as open in DESIGN.md.  The matrix of the quantifier is run
+    against the real commands on every check. *)
+From WT Require Import Base.Wrap Base.ListX Model.Time Model.Ring Model.Update Model.Handle Model.Cmd Proofs.CmdProofs.
+
+Theorem C16_copy_verdicts F src dest o until now :
+  r_status (copy_core F src dest o until now) <> StDiff /\
+  (r_status (copy_core F src dest o until now) = StNotExist -> src = RdNotExist).
+Proof. exact (copy_core_status F src dest o until now). Qed.
+Print Assumptions C16_copy_verdicts.
+
+Theorem C16_no_success_no_write F src dh o until now :
+  r_status (copy_core F src (Some dh) o until now) <> StOk ->
+  r_dest (copy_core F src (Some dh) o until now) = Some dh.
+Proof. exact (copy_core_failure_leaves_dest F src dh o until now). Qed.
+Print Assumptions C16_no_success_no_write.
+
+Theorem C16_diff_verdicts fsub cr sh sl dh dl :
+  fst (diff_core fsub cr sh sl dh dl) = StOk \/ fst (diff_core fsub cr sh sl dh dl) = StDiff \/
+  fst (diff_core fsub cr sh sl dh dl) = StErr.
+Proof. exact (diff_core_status fsub cr sh sl dh dl). Qed.
+Print Assumptions C16_diff_verdicts.
